@@ -15,17 +15,23 @@ Bounded-exhaustive enumeration (engine E4, engines/enumerate.py):
               ref (orphan commit + tree + blob, dangling tag, dangling blob)
   peer      = every downset (ancestor-closed subset) of the DAG: the receiver holds exactly the
               closure of those commits, refs on its maximal commits under refs/heads/* (family
-              "h": offered as haves) or only under refs/remotes/* (family "r": nothing is offered),
-              optionally also the decoration tag
-  wants     = every non-empty subset (<=3) of the sender's refs
-  direction = fetch, clone (empty peer, everything wanted), push (roles swapped)
+              "h": offered as haves) or only under refs/remotes/* (family "r": nothing is offered);
+              variants: + the decoration tag; + a commit of its own the sender has never seen;
+              + made shallow by an earlier depth-limited fetch of one ref (two-step family)
+  wants     = every non-empty subset (<=3, per block) of the sender's refs; hostile wants for ids no
+              ref reaches (dulwich servers)
+  direction = fetch, clone (empty peer, the client decides what it wants), push (roles swapped)
   config    = in-process (Repo.fetch between MemoryRepos; LocalGitClient fetch / clone /
-              send_pack between disk repositories, sender loose or repacked with deltas by C git)
-              for the whole set; protocol transports (dulwich TCP server + TCPGitClient, WSGI smart
-              HTTP + Urllib3HttpGitClient, C git upload-pack/receive-pack through
-              SubprocessGitClient incl. protocol v2, C git fetch/clone/push over git:// and
-              http:// against the dulwich servers) x capability sets x depth {None,1,2} for the
-              n<=3 histories and the named 4-commit shapes.
+              send_pack between disk repositories, sender loose or repacked with deltas by C git);
+              protocol transports (dulwich TCP server + TCPGitClient, WSGI smart HTTP +
+              Urllib3HttpGitClient, C git upload-pack/receive-pack through SubprocessGitClient incl.
+              protocol v2, C git fetch/clone/push over git:// and http:// against the dulwich
+              servers) x capability rows x depth {None,1,2} for the n<=3 histories and 12 named
+              4-commit shapes.  The one timing-dependent decision of the code under test (the fetch
+              client's can_read() poll while sending haves) is enumerated as net=eager / net=lazy
+              (see _net_model), everything else is synchronous.
+  The plan is data: families() / proto_families() list (histories, blocks); block_cases() expands
+  a block on a history into the complete list of cases; run() checks evaluated == declared.
 
 Oracle (engines/refmodels/closure.py): the object graph is known by construction; closure = plain
 BFS, gitlinks not followed.
@@ -50,7 +56,7 @@ import os
 import sys
 
 from engines import enumerate as E
-from engines.common import Acc, HarnessError, fresh_dir, git, pmap_acc, replay_generic, rmtree, rp, split
+from engines.common import Acc, HarnessError, fresh_dir, git, pmap_acc, replay_generic, rmtree, rp
 from engines.refmodels import closure as ref
 
 ZERO = b"0" * 40
@@ -103,19 +109,21 @@ def alphabet():
         edges[t.id] = tuple(kids)
         return t.id
 
-    F, D, L = 0o100644, 0o040000, 0o160000
+    F, X, S, D, L = 0o100644, 0o100755, 0o120000, 0o040000, 0o160000
     bA = blob(_lines())
     bB = blob(_lines(5))
     bC = blob(_lines(15, b"one more line at the end\n"))
     bD = blob(b"tiny\n")
+    bL = blob(b"d/x")  # a symlink target: only ever referenced with mode 120000
+    bR = blob(_lines(7, b"#!/bin/sh\n"))  # only ever referenced with mode 100755
     S1 = tree([(b"x", F, bA), (b"y", F, bB)])
     S2 = tree([(b"k", F, bD), (b"x", F, bC)])
     S3 = tree([(b"x", F, bA), (b"y", F, bB), (b"z", D, S2)])
     roots = [
         tree([(b"d", D, S1), (b"f", F, bA), (b"g", F, bA)]),  # same blob under f, g and d/x
-        tree([(b"d", D, S1), (b"f", F, bB), (b"h", F, bC)]),  # identical subtree d, new sibling blob
+        tree([(b"d", D, S1), (b"f", F, bB), (b"h", F, bC), (b"s", S, bL)]),  # identical subtree d, new siblings, symlink
         tree([(b"f", F, bB), (b"m", L, GITLINK)]),  # d gone; gitlink
-        tree([(b"d", D, S1), (b"e", D, S2), (b"f", F, bC)]),  # d back, new subtree e
+        tree([(b"d", D, S1), (b"e", D, S2), (b"f", F, bC), (b"run", X, bR)]),  # d back, new subtree e, executable
         tree([(b"d", D, S3), (b"f", F, bA)]),  # S2 nested at a second path
     ]
     _ALPHA.update(roots=roots, objs=objs, edges=edges, bE=None)
@@ -450,8 +458,13 @@ def judge(acc, site, h, repo, before_ids, xfer_ids, want_ids, sent, include_tag,
     missing = sorted(o for o in need if o not in store)
     if missing:
         roles = sorted({_role(h, o, commit_reach) for o in missing})
+        qual = ""
+        if shallow_before:
+            qual += ":into-shallow-receiver"
+        if sent is not None and not sent:
+            qual += ":no-pack-received"
         for r_ in roles:
-            acc.violation("%s:%s-incomplete:%s-missing" % (site, clause, r_),
+            acc.violation("%s:%s-incomplete%s:%s-missing" % (site, clause, qual, r_),
                           "%s: receiver lacks %d object(s) of the transferred closure, e.g. %s %s"
                           % (desc, len(missing), TYPE[h.raw[missing[0]][0]], missing[0].decode()), replay)
     # (1b) complete before => complete after: every ref of the receiver
@@ -535,6 +548,9 @@ def judge(acc, site, h, repo, before_ids, xfer_ids, want_ids, sent, include_tag,
     )
     if depth:
         cls += ":depth%d:%s" % (depth, "shallow" if shallow else "no-shallow")
+    if not acc.samples:
+        acc.sample("%s -> %s (sent %s objects, receiver had %d, has %d)"
+                   % (desc, cls, "?" if sent is None else len(sent), len(before_ids), len(after_ids)))
     return cls
 
 
@@ -736,9 +752,11 @@ def _fsck(acc, site, path, replay, desc):
     p = git(["fsck", "--connectivity-only", "--no-dangling", "--no-progress"], cwd=path, check=False)
     acc.count("fsck_runs")
     if p.returncode != 0:
-        err = (p.stderr + p.stdout).decode("utf-8", "replace").strip().splitlines()
-        first = err[0] if err else ""
-        word = "missing" if "missing" in first else "broken-link" if "broken link" in first else "other"
+        err = [ln for ln in (p.stderr + p.stdout).decode("utf-8", "replace").strip().splitlines()
+               if not ln.startswith("notice:")]
+        text = " ".join(err)
+        word = ("invalid-sha1-pointer" if "invalid sha1 pointer" in text else "broken-link" if "broken link" in text
+                else "missing" if "missing" in text else "other")
         acc.violation("%s:git-fsck:%s" % (site, word), "%s: git fsck --connectivity-only: %s" % (desc, " | ".join(err[:3])), replay)
 
 
@@ -776,6 +794,18 @@ def close_servers(abandon=False):
                 pass
             continue
         s.close()
+
+
+class _BackendWrap:
+    """A BackendRepo that is not itself a Repo but exposes one as ``.repo`` — the only kind of
+    backend for which UploadPackHandler.get_tagged (include-tag) does anything at all
+    (server.py: ``repo = getattr(self.repo, "repo", None); if repo is None: return {}``)."""
+
+    def __init__(self, repo):
+        self.repo = repo
+
+    def __getattr__(self, name):
+        return getattr(self.repo, name)
 
 
 def _git_process_env():
@@ -971,7 +1001,7 @@ def _index(acc, site, h, pack, replay, desc, label):
 
 def case_proto(acc: Acc, dag, trees, deco, D, fam, rtag, wants, transport, direction, opts=()):
     """One transfer over a real transport.  opts: tuple of (key, value) among
-    depth, storage, ack, nodone, itag, thin, ofs, sb, pv, tags(0 = --no-tags), hostile, fsck."""
+    depth, storage, ack, nodone, itag, thin, ofs, sb, pv, tags(0 = --no-tags), hostile, fsck, net, wrap, pre."""
     import signal
 
     o = dict(opts)
@@ -1035,7 +1065,8 @@ def _case_proto(acc, h, D, fam, rtag, wants, transport, direction, o, site, desc
         if srv is not None:
             served = Repo(sdir if direction != "push" else rdir)
             opened.append(served)
-            srv.serve(served, drop_upload=_server_drop(o) if cgit_client else (), drop_receive=())
+            srv.serve(_BackendWrap(served) if o.get("wrap") else served,
+                      drop_upload=_server_drop(o) if cgit_client else (), drop_receive=())
         if transport == "cgit-srv":
             _git_process_env()
             if o.get("pv") == 2:
@@ -1129,6 +1160,11 @@ def _case_proto(acc, h, D, fam, rtag, wants, transport, direction, o, site, desc
             raise
         except Exception as e:
             failed = "%s" % type(e).__name__
+            if failed == "HangupException" or (failed == "GitProtocolError" and
+                                               any(w in str(e) for w in ("Broken pipe", "Connection reset"))):
+                # the peer closed the connection; whether the client notices while reading or while
+                # writing depends on timing — one class
+                failed = "peer-closed-connection"
             acc.sample("ERROR %s: %r" % (desc, e))
         finally:
             if env_pv:
@@ -1242,8 +1278,6 @@ def _case_proto(acc, h, D, fam, rtag, wants, transport, direction, o, site, desc
 def _skip_tcp_request(stream):
     """A git:// client stream starts with one pkt-line 'git-receive-pack /\0host=..\0' — drop it
     (a pipe to `git receive-pack` has no such line: commands start with 40 hex digits)."""
-    from engines import xfer as X
-
     if len(stream) >= 8 and stream[4:8] == b"git-":
         n = int(stream[:4], 16)
         return stream[n:]
@@ -1366,7 +1400,8 @@ def families(quick):
     if quick:
         fams.append(("in-process A: n<=3 all DAGs x tree rule 0 x 6 decorations",
                      histories(small, [R0], DECOS),
-                     [mem((None, 1, 2), True, 3),
+                     [mem((None, 1, 2), False, 3),
+                      B("inproc", "mem-fetch", [()], fams=("r",)),
                       B("inproc", "local-fetch", [P, Pd(1)]),
                       B("inproc", "local-fetch", [L, Pd(2)], maxwants=1),
                       B("inproc", "local-fetch", [P], fams=("r",), maxwants=1),
@@ -1406,7 +1441,7 @@ def families(quick):
         fams.append(("in-process B: n=3 all DAGs x 3 tree rules x 6 decorations",
                      histories(E.dags(3, 2), TREE_RULES, DECOS), full))
         fams.append(("in-process C: n=4 all 56 DAGs x 3 tree rules x 6 decorations",
-                     histories(n4, TREE_RULES, DECOS), [mem((None, 1, 2), True, 3)]))
+                     histories(n4, TREE_RULES, DECOS), [mem((None, 1, 2), False, 3)]))
         fams.append(("in-process D: n=4 all 56 DAGs x tree rule 0 x 6 decorations",
                      histories(n4, [R0], DECOS),
                      [B("inproc", "local-fetch", [P, Pd(1)], maxwants=2),
@@ -1414,7 +1449,7 @@ def families(quick):
                       clone(("packed", "loose"), (None, 1, 2))]))
         fams.append(("in-process E: n=5 all 616 DAGs x tree rule 0 x {none,tc}",
                      histories(E.dags(5, 2), [R0], ("none", "tc")),
-                     [mem((None, 2), False, 2)]))
+                     [mem((None,), False, 2), mem((2,), False, 1)]))
         fams.append(("in-process S: n<=3 all DAGs + 12 named 4-commit shapes x tree rule 0 x {none,tc}: receiver made shallow "
                      "by an earlier fetch; receiver with a commit of its own",
                      histories(small + named, [R0], ("none", "tc")),
@@ -1453,7 +1488,7 @@ def proto_families(quick):
     for tr in ("tcp", "http"):
         tcp = tr == "tcp"
         full = tcp or not quick
-        ack_rows = [o(ack="single"), o(ack="multi"), o(), o(nodone=1)] if full else [o(ack="single"), o(), o(nodone=1)]
+        ack_rows = [o(ack="single"), o(ack="multi"), o(), o(nodone=1)] if not quick else [o(ack="single"), o(), o(nodone=1)]
         depth_rows = [o(depth=1), o(depth=2), o(depth=1, ack="single"), o(depth=2, nodone=1)] if not quick else [o(depth=1)]
         lazy = dict(net="lazy") if tcp else {}
         if tcp:  # the client polls for early answers only on stateful transports
@@ -1471,6 +1506,7 @@ def proto_families(quick):
             PB(tr, "fetch", [o(**lazy), o(itag=1, **lazy), o(itag=1, ack="single", **lazy), o(itag=1, nodone=1)] if full
                else [o(itag=1), o(itag=1, nodone=1)], maxwants=w_small),
             PB(tr, "fetch", [o(itag=1, depth=1, **lazy)], maxwants=1),
+            PB(tr, "fetch", [o(itag=1, wrap=1, **lazy)], maxwants=w_small if tcp or not quick else 1),
             PB(tr, "push", [o()], rtag=True, maxwants=w_small),
             PB(tr, "clone", [o(), o(itag=1), o(itag=1, depth=1)], special="clone"),
             PB(tr, "fetch", hostile[:2], special="hostile"),
@@ -1484,9 +1520,10 @@ def proto_families(quick):
     # ---- dulwich client -> C git upload-pack / receive-pack: + thin-pack, ofs-delta, side-band-64k, v0/v2
     tr = "cgit-srv"
     fams.append(("cgit-srv A: n<=3 all DAGs, no tags", PA, [
-        PB(tr, "fetch", [o(pv=2), o(pv=0), o(pv=0, net="lazy"), o(pv=0, net="lazy", ack="single"), o(pv=0, net="lazy", ack="multi"),
+        PB(tr, "fetch", [o(pv=2), o(pv=0), o(pv=0, net="lazy"), o(pv=0, net="lazy", ack="single"),
                          o(pv=0, net="lazy", ack="single", thin=0, ofs=0, sb=0), o(pv=2, depth=1), o(pv=0, net="lazy", depth=2)] +
-           ([] if quick else [o(pv=0, ack="single"), o(pv=0, ack="multi"), o(pv=2, net="lazy", depth=2), o(pv=0, net="lazy", depth=1)]),
+           ([] if quick else [o(pv=0, net="lazy", ack="multi"), o(pv=0, ack="single"), o(pv=0, ack="multi"),
+                              o(pv=2, net="lazy", depth=2), o(pv=0, net="lazy", depth=1)]),
            maxwants=w_small),
         PB(tr, "fetch", [o(pv=0, depth=1)], maxwants=1),
         PB(tr, "fetch", [o(pv=0, net="lazy", thin=0), o(pv=0, net="lazy", ofs=0), o(pv=0, net="lazy", sb=0), o(pv=2, thin=0)],
@@ -1495,7 +1532,7 @@ def proto_families(quick):
         PB(tr, "clone", [o(pv=2), o(pv=0), o(pv=2, depth=1), o(pv=0, depth=2)], special="clone"),
         PB(tr, "fetch", [o(pv=2), o(pv=0, net="lazy")], alien=True, maxwants=1 if quick else 2),
         PB(tr, "push", [o()], alien=True, maxwants=1 if quick else 2),
-    ] + ([] if quick else [twostep(tr, (None, 1, 2, 3), pv=2), twostep(tr, (None, 2), pv=0, net="lazy")])))
+    ] + ([twostep(tr, (None,), pv=2)] if quick else [twostep(tr, (None, 1, 2, 3), pv=2), twostep(tr, (None, 2), pv=0, net="lazy")])))
     fams.append(("cgit-srv T: n<=2 all DAGs x 5 tag decorations", PT, [
         PB(tr, "fetch", [o(pv=0, net="lazy", itag=1), o(pv=2, itag=1)] +
            ([] if quick else [o(pv=0, net="lazy"), o(pv=2), o(pv=0, net="lazy", itag=1, depth=1)]), maxwants=w_small),
@@ -1521,7 +1558,7 @@ def proto_families(quick):
         ] + ([] if quick else [PB(tr, "push", [o()], alien=True, maxwants=1), twostep(tr, (None, 1, 2, 3))])))
         fams.append(("%s T: n<=2 all DAGs x 5 tag decorations" % tr, PT, [
             PB(tr, "fetch", [o()], rtag=True, maxwants=1 if quick else 3),
-            PB(tr, "fetch", [o(tags=0)] + ([] if quick else [o(depth=1), o(ack="single")]), maxwants=1 if quick else 3),
+            PB(tr, "fetch", [o(tags=0), o(wrap=1)] + ([] if quick else [o(depth=1), o(ack="single")]), maxwants=1 if quick else 3),
             PB(tr, "push", [o()], rtag=True, maxwants=1 if quick else 3),
             PB(tr, "clone", [o(), o(tags=0)] + ([] if quick else [o(depth=1)]), special="clone"),
         ]))
@@ -1617,7 +1654,7 @@ def run(ctx):
         need = ["mem:fetch:partial:minimal", "local:fetch:partial:resends", "local:push:partial:minimal",
                 "local:clone:empty:uncaptured:depth1:shallow", "tcp:fetch:partial:minimal", "tcp:fetch:partial:resends",
                 "http:fetch:partial:minimal", "cgit-srv:fetch:partial:minimal", "cgit-tcp:fetch:partial:minimal",
-                "cgit-http:push:partial:minimal", "tcp:fetch:failed:GitProtocolError",
+                "cgit-http:push:partial:minimal", "tcp:fetch:failed:peer-closed-connection",
                 "mem:fetch:partial:resends:depth2:shallow:after-depth1-fetch"]
         absent = [c for c in need if c not in classes]
         if absent:
@@ -1625,8 +1662,6 @@ def run(ctx):
         for counter in ("thin_packs_on_wire", "delta_packs_on_wire", "packs_with_deltas"):
             if not n.get(counter):
                 raise HarnessError("vacuity guard: %s == 0" % counter)
-        if any(c.split(":")[2] == "hostile-want-served" for c in classes if c.count(":") >= 2):
-            pass  # reported through the containment violation, if anything leaked
     ctx.level = "exploration"
     ctx.coverage.update(
         evaluations=total,
@@ -1668,4 +1703,9 @@ def run(ctx):
 
 
 def replay(ctx, obj):
-    return replay_generic(sys.modules[__name__], ctx, obj)
+    try:
+        return replay_generic(sys.modules[__name__], ctx, obj)
+    finally:
+        close_servers()
+        if _HMEMO[1] is not None:
+            _drop(_HMEMO[1])
